@@ -21,6 +21,9 @@ def main() -> int:
     tier = args.tier if args.tier in ("quick", "thorough") else "quick"
     prop = args.prop.upper()
 
+    import warnings
+
+    warnings.filterwarnings("ignore")
     from vf import env, report
 
     env.quiet_logging()
